@@ -389,7 +389,10 @@ theorem clientAct_flow {b b' : BState} {i : Nat} {o o' : Oracle} (h : clientAct 
     | start r =>
       simp only [] at h
       split at h
-      · cases r <;> simp only [Except.ok.injEq, Prod.mk.injEq] at h <;> obtain ⟨rfl, rfl⟩ := h <;> flow_leaf
+      · cases r <;> simp only [Except.ok.injEq, Prod.mk.injEq] at h <;> obtain ⟨rfl, rfl⟩ := h
+        case mget ks iter =>
+          rcases mgetStart_spec b i ks iter with ⟨_, _, e⟩ | ⟨_, e⟩ <;> rw [e] <;> flow_leaf
+        all_goals flow_leaf
       · cases r <;> simp only [] at h
         case putW k v w ttl =>
           split at h
@@ -400,7 +403,7 @@ theorem clientAct_flow {b b' : BState} {i : Nat} {o o' : Oracle} (h : clientAct 
           cases v <;> cases w <;> cases ttl <;> cases rm <;> flow_leaf
         case mget ks iter =>
           simp only [Except.ok.injEq, Prod.mk.injEq] at h; obtain ⟨rfl, rfl⟩ := h
-          rcases mgetNext_spec b i ks [] iter with ⟨out, e⟩ | ⟨k, rest, _, _, e⟩ <;> rw [e] <;> flow_leaf
+          rcases mgetStart_spec b i ks iter with ⟨_, _, e⟩ | ⟨_, e⟩ <;> rw [e] <;> flow_leaf
         all_goals simp only [Except.ok.injEq, Prod.mk.injEq] at h; obtain ⟨rfl, rfl⟩ := h
         all_goals flow_leaf
     | putPresent k v w ttl => flow_pos h
@@ -562,16 +565,24 @@ theorem clientAct_flow {b b' : BState} {i : Nat} {o o' : Oracle} (h : clientAct 
       all_goals simp only [Except.ok.injEq, Prod.mk.injEq] at h; obtain ⟨rfl, rfl⟩ := h
       · flow_leaf
       · rcases mgetNext_spec { b with g := { b.g with stats := { b.g.stats with misses := b.g.stats.misses + 1 } } } i ks (acc ++ [none]) iter
-          with ⟨out, e⟩ | ⟨k, rest, _, _, e⟩ <;> rw [e] <;> flow_leaf
+          with ⟨out, e⟩ | ⟨k, rest, _, e⟩ <;> rw [e] <;> flow_leaf
       · rcases mgetNext_spec { b with g := { b.g with stats := { b.g.stats with misses := b.g.stats.misses + 1 } } } i ks (acc ++ [none]) iter
-          with ⟨out, e⟩ | ⟨k, rest, _, _, e⟩ <;> rw [e] <;> flow_leaf
+          with ⟨out, e⟩ | ⟨k, rest, _, e⟩ <;> rw [e] <;> flow_leaf
     | mgetPool k v ks acc iter =>
       simp only [] at h
       split at h
       · rename_i g1 o1 hp
         simp only [Except.ok.injEq, Prod.mk.injEq] at h; obtain ⟨rfl, rfl⟩ := h
-        rcases mgetNext_spec { b with g := g1 } i ks (acc ++ [some v]) iter with ⟨out, e⟩ | ⟨k, rest, _, _, e⟩ <;> rw [e] <;> flow_leaf
+        rcases mgetNext_spec { b with g := g1 } i ks (acc ++ [some v]) iter with ⟨out, e⟩ | ⟨k, rest, _, e⟩ <;> rw [e] <;> flow_leaf
       · cases h
+    | mgetFlag outer ks acc iter =>
+      simp only [Except.ok.injEq, Prod.mk.injEq] at h; obtain ⟨rfl, rfl⟩ := h
+      rcases mgetFlagAct_spec b i outer ks acc iter with ⟨_, e⟩ | ⟨_, _, _, _, _, e⟩ | ⟨_, rest', _, _, _, e⟩ |
+        ⟨_, _, _, _, _, e⟩ <;> rw [e]
+      · flow_leaf
+      · flow_leaf
+      · rcases mgetNext_spec b i rest' (acc ++ [none]) iter with ⟨out, e2⟩ | ⟨k2, rest2, _, e2⟩ <;> rw [e2] <;> flow_leaf
+      · flow_leaf
 
 theorem wall_client {cfg : Cfg} {T : Nat} {P Q : Int → Prop} {b b' : BState} {i : Nat} {pc pc' : CPc}
     (hb : WAll cfg T P b) (hcfg : b.g.cfg = cfg) (f : CFlow b b' i pc pc') (hPQ : ∀ x, P x → Q x)
